@@ -2,6 +2,7 @@ import GA.M.Unpack
 import GA.M.Pack
 import GA.M.Export
 import GA.M.TreeDiff
+import GA.M.TreeApply
 /-
   Line protocol for filesystem cases (DESIGN A.7).
     case    := op SP opts SP dest SP root SP umask SP "T" n node* SP "E" m entry*
@@ -402,7 +403,10 @@ def handleChanges (ws : List String) : String :=
   match p.run ws with
   | some ((o, n), _) =>
     let cs := TreeDiff.changes n o
+    let b := fun (x : Bool) => if x then "1" else "0"
     "ok " ++ toString cs.length ++ String.join (cs.map (fun c =>
-      " " ++ showKind c.kind ++ showStr (47 :: joinSlash c.path)))
+      " " ++ showKind c.kind ++ showStr (47 :: joinSlash c.path))) ++
+      -- the hypotheses of C04b.apply_changes_reproduces evaluated on these trees (`okB_sound`)
+      " H" ++ b n.rootOkB ++ b o.rootOkB
   | none => "bad-case"
 
